@@ -36,7 +36,8 @@ def points(dim):
 def s_rev3():
     return st.fixed_dictionaries({"kind": st.just("rev3"), "a": gens.axis3(-3, 6), "q": points(3), "theta": thetas(),
                                   "lam": gens.fl(-10, 10), "k": st.one_of(gens.fl(-3, 3), st.integers(-3, 3).map(float)),
-                                  "thetas": st.lists(thetas(), min_size=1, max_size=4), "form": st.sampled_from(["list", "array", "tuple"])})
+                                  "thetas": st.lists(thetas(), min_size=1, max_size=4), "form": st.sampled_from(["list", "array", "tuple"]),
+                                  "theta_rule": st.sampled_from(THETA_RULES)})
 
 
 def s_pris3():
@@ -46,12 +47,29 @@ def s_pris3():
 
 def s_rev2():
     return st.fixed_dictionaries({"kind": st.just("rev2"), "q": points(2), "theta": thetas(), "k": gens.fl(-3, 3),
-                                  "thetas": st.lists(thetas(), min_size=1, max_size=4)})
+                                  "thetas": st.lists(thetas(), min_size=1, max_size=4), "theta_rule": st.sampled_from(THETA_RULES)})
 
 
 def s_pris2():
     return st.fixed_dictionaries({"kind": st.just("pris2"), "a": st.tuples(gens.direction2(), gens.logmag(-3, 6)).map(lambda t: [x * t[1] for x in t[0]]),
                                   "theta": st.one_of(thetas(), gens.signed_logmag(-6, 3)), "k": gens.fl(-3, 3)})
+
+
+THETA_RULES = ["given", "given", "given", "given", "1/|S|", "-1/|S|", "1/|v|"]
+
+
+def _theta_rule(case, th, S):
+    """theta values tied to the twist itself: the scaled twist theta*S then has norm exactly 1 as a whole vector (which
+    is not what makes it a unit twist), or its translational part has"""
+    rule = case.get("theta_rule", "given")
+    S = np.asarray(S, dtype=float)
+    if rule in ("1/|S|", "-1/|S|"):
+        n = float(np.linalg.norm(S))
+        return (1.0 if rule[0] == "1" else -1.0) / n
+    if rule == "1/|v|":
+        n = float(np.linalg.norm(S[:-3] if len(S) == 6 else S[:2]))
+        return 1.0 / n if n > 1e-3 else th
+    return th
 
 
 def _form(v, form):
@@ -73,6 +91,7 @@ def check_case(case):
 def _rev3(case):
     a, q, th = arr(case["a"]), arr(case["q"]), case["theta"]
     ah = refs.unit(a)
+    th = _theta_rule(case, th, np.r_[-np.cross(ah, q), ah])
     qs = max(1.0, float(np.max(np.abs(q))))
     tol = 1e-9
     c = Checker("rev3", theta=th, qmax=qs, alen=float(np.linalg.norm(a)))
@@ -251,6 +270,7 @@ def _pris3(case):
 
 def _rev2(case):
     q, th = arr(case["q"]), case["theta"]
+    th = _theta_rule(case, th, np.r_[q[1], -q[0], 1.0])
     qs = max(1.0, float(np.max(np.abs(q))))
     tol = 1e-9
     c = Checker("rev2", theta=th, qmax=qs)
